@@ -284,7 +284,8 @@ class ConnectionState:
         return ResponseOk(cmd.tag, cmd.command + b' completed.'), updates
 
     async def do_close(self, cmd: CloseCommand) -> _CommandRet:
-        await self.session.expunge_mailbox(self.selected)
+        if not self.selected.readonly:
+            await self.session.expunge_mailbox(self.selected)
         self._selected = None
         return ResponseOk(cmd.tag, cmd.command + b' completed.'), None
 
